@@ -3,7 +3,9 @@
 
   seedtool.py confirm <out-dir> <k> <worktree>   confirm patch k of a sub-agent's output in a scratch worktree:
                                                  suite passes with the patch, demo fails with it and passes without
-  seedtool.py run <patch> <ID> [<ID> ...]        apply the patch to /repo, run the quick checks, undo the patch
+  seedtool.py run <patch> <ID> [<ID> ...]        apply the patch to a scratch worktree of /repo, run the quick checks against it
+  seedtool.py regress [lanes] [seed ...]         every kept seed (/verif/seeded/*/patch.diff) against the quick tier of its
+                                                 target check as it stands now; writes seeded/<seed>/final.json
 """
 import json
 import os
@@ -149,9 +151,36 @@ def run(patch, ids, wt="/tmp/wt/seedrun"):
     return out
 
 
+def regress(lanes, only):
+    import glob
+    from concurrent.futures import ThreadPoolExecutor
+    seeds = sorted(os.path.basename(os.path.dirname(p)) for p in glob.glob(os.path.join(VERIF, "seeded", "*", "patch.diff")))
+    if only:
+        seeds = [x for x in seeds if x in only or x.split("-")[0] in only]
+    chunks = [seeds[i::lanes] for i in range(lanes)]
+
+    def lane(i):
+        wt = "/tmp/wt/seedreg%d" % i
+        for sd in chunks[i]:
+            pid = sd.split("-")[0]
+            res = run(os.path.join(VERIF, "seeded", sd, "patch.diff"), [pid], wt)
+            v = res.get(pid, {}) if isinstance(res, dict) else {}
+            out = dict(seed=sd, check=pid, rc=v.get("rc"), reported=v.get("rc") == 1, seconds=v.get("s"), detail=v.get("detail", res.get("error", "") if isinstance(res, dict) else ""))
+            json.dump(out, open(os.path.join(VERIF, "seeded", sd, "final.json"), "w"), indent=1)
+            print("%s %s rc=%s %s" % (sd, "REPORTED" if out["reported"] else "** NOT REPORTED **", out["rc"], out["detail"][:110]), flush=True)
+        subprocess.run(["git", "-C", "/repo", "worktree", "remove", "--force", wt], stdout=subprocess.DEVNULL, stderr=subprocess.DEVNULL)
+
+    with ThreadPoolExecutor(lanes) as ex:
+        list(ex.map(lane, range(lanes)))
+
+
 if __name__ == "__main__":
     if sys.argv[1] == "confirm":
         print(json.dumps(confirm(sys.argv[2], int(sys.argv[3]), sys.argv[4]), indent=1))
+    elif sys.argv[1] == "regress":
+        args = sys.argv[2:]
+        lanes = int(args.pop(0)) if args and args[0].isdigit() else 2
+        regress(lanes, set(args))
     elif sys.argv[1] == "run":
         wt = os.environ.get("SEED_WT", "/tmp/wt/seedrun")
         print(json.dumps(run(os.path.abspath(sys.argv[2]), sys.argv[3:], wt), indent=1))
